@@ -4,6 +4,7 @@ package main
 // evidence of every property whose verification used it.
 
 import (
+	"strings"
 	"fmt"
 	"go/types"
 
@@ -331,6 +332,17 @@ func (eng *Engine) initExterns() {
 		ln := UF(SI, "str.split.len", sT, sep)
 		st.assume(And(Ge(ln, TInt(1)), Le(ln, TInt(1<<40))))
 		k(st, st.mkSlice(arr, TInt(0), ln))
+	}
+
+	for _, nm := range []string{"LastIndex", "Index"} {
+		uf := "str." + strings.ToLower(nm)
+		E["strings."+nm] = func(x *Exec, st *State, cc *ssa.CallCommon, fn *ssa.Function, args []Val, resT types.Type, k func(*State, Val)) {
+			tb(x, "strings.Index / LastIndex: uninterpreted positions, -1 or inside the string (no string is longer than 2^62 bytes)")
+			sT, sep := args[0].(Term), args[1].(Term)
+			r := UF(SI, uf, sT, sep)
+			st.assume(And(Ge(r, TInt(-1)), Le(Add(r, UF(SI, "str.len", sep)), UF(SI, "str.len", sT)), Le(r, TInt(1<<62))))
+			k(st, r)
+		}
 	}
 
 	// ---- JSON (sonic): uninterpreted encoding of the marshalled value ----
